@@ -206,6 +206,7 @@ def disp (c : Ctx) : Nat → List AEv → Kont → STree
       let d0 := r0.deriv c.x
       if d0.alive then
         flushT pend (if d0.nullable && !d0.canContinue then .leaf (.next rest) else .leaf (.next (.w r0 d0 :: rest)))
+      else if r0.nullable then disp c fuel pend rest   -- the empty match, right here
       else flushT pend (.leaf (.next (.w r0 r0 :: rest)))
   | fuel + 1, pend, .c g pc alts els :: rest =>
     let alts' := (alts.map fun a => (a.1.deriv c.x, a.2.1, a.2.2)).filter fun a => a.1.alive
